@@ -13,6 +13,10 @@
    compare them with strace, and keeps the directory ([p_fs]). *)
 Require Import Csvq.Model.Base Csvq.Model.Fs Csvq.Model.Commit.
 
+(* what COMMIT writes into a table: the encoded records and the line break after them (the file's own
+   line break for a loaded table, the session's --line-break for a created one, nothing when stripped) *)
+Definition payload := (content * content)%type.
+
 (* file.Handler: which resources it holds.  ForRead handlers never outlive the load. *)
 Record handler := mkH {
   h_tbl : N;
@@ -22,7 +26,7 @@ Record handler := mkH {
   h_temp : bool;       (* tempFile != nil *)
   h_rlock : bool;      (* rlockFile != nil *)
   h_dirty : bool;      (* the view is in UncommittedViews.Updated *)
-  h_body : content     (* what EncodeView will write for the cached view (without final line break) *)
+  h_body : payload     (* what COMMIT will write for the cached view: encoded records, final line break *)
 }.
 
 (* Handler.close / closeWithErrors: close fp; remove a ForCreate file if it exists; temp, lock,
@@ -41,7 +45,7 @@ Definition refs (h : handler) : list path :=
   (if h_create h then [data t] else []) ++ (if h_temp h then [tempp t] else [])
   ++ (if h_lock h then [lockp t] else []) ++ (if h_rlock h then [rlockp t] else []).
 
-Record cfg := mkCfg { c_rename_over : bool; c_linebreak : content }.
+Record cfg := mkCfg { c_rename_over : bool }.
 
 Record pst := mkP {
   p_fs : fs;
@@ -63,10 +67,10 @@ Inductive action :=
 | ARead (t : N) (f : option nat)
     (* load t for reading.  f: 0 cancelled / timed out before the read lock; 1 opening the file
        fails; 2 loading fails (parse error, cancellation) *)
-| AUpdate (t : N) (nb : option content) (f : option nat)
+| AUpdate (t : N) (nb : option payload) (f : option nat)
     (* load t for update unless already held; nb = Some b: the statement changes t, which now
        encodes as b.  f: 0 before the lock; 1 opening fails; 2 before the temp file; 3 loading fails *)
-| ACreate (t : N) (b : content) (f : option nat)
+| ACreate (t : N) (b : payload) (f : option nat)
     (* CREATE TABLE t.  f: 0 lock file cannot be made; 1 creating the file fails; 2 the AS SELECT
        query fails after the file was made *)
 | ARetryRead (t : N) (n : nat)
@@ -86,9 +90,9 @@ Definition fails (f : option nat) (n : nat) : bool := match f with Some m => Nat
 
 (* ---- acquisitions ----------------------------------------------------------------------------- *)
 Definition read_acquire (t : N) : list op := [OCreate (lockp t); OCreate (rlockp t); OClose (lockp t); ORemove (lockp t)].
-Definition rd_handler (t : N) (fp : bool) : handler := mkH t false fp false false true false [].
-Definition up_handler (t : N) (fp temp : bool) : handler := mkH t false fp true temp false false [].
-Definition cr_handler (t : N) (fp : bool) (b : content) : handler := mkH t true fp true false false false b.
+Definition rd_handler (t : N) (fp : bool) : handler := mkH t false fp false false true false ([], []).
+Definition up_handler (t : N) (fp temp : bool) : handler := mkH t false fp true temp false false ([], []).
+Definition cr_handler (t : N) (fp : bool) (b : payload) : handler := mkH t true fp true false false false b.
 
 Definition exec_read (s : pst) (t : N) (f : option nat) : pst * bool :=
   if mem t (p_ro s) || in_cont s t then (s, true)
@@ -108,16 +112,16 @@ Definition exec_retry_read (s : pst) (t : N) (n : nat) : pst * bool :=
   if exists_b (p_fs s) (lockp t) then (s, true)        (* LockExists: the attempt stops before making anything *)
   else (emit s (repeat_ops n (rlock_retry t)), true).
 
-Definition mark (nb : option content) (h : handler) : handler :=
+Definition mark (nb : option payload) (h : handler) : handler :=
   match nb with
   | None => h
   | Some b => mkH (h_tbl h) (h_create h) (h_fp h) (h_lock h) (h_temp h) (h_rlock h)
                   (if h_create h then h_dirty h else true) b
   end.
-Definition mark_tbl (t : N) (nb : option content) (c : list handler) : list handler :=
+Definition mark_tbl (t : N) (nb : option payload) (c : list handler) : list handler :=
   map (fun h => if N.eqb (h_tbl h) t then mark nb h else h) c.
 
-Definition exec_update (s : pst) (t : N) (nb : option content) (f : option nat) : pst * bool :=
+Definition exec_update (s : pst) (t : N) (nb : option payload) (f : option nat) : pst * bool :=
   if in_cont s t then (with_cont s (mark_tbl t nb (p_cont s)), true)
   else if negb (exists_b (p_fs s) (data t)) then (s, false)
   else if fails f 0 || exists_b (p_fs s) (lockp t) || rlock_exists (p_fs s) t then (s, false)
@@ -131,7 +135,7 @@ Definition exec_update (s : pst) (t : N) (nb : option content) (f : option nat) 
       else (with_ro (with_cont s2 (mark nb (up_handler t true true) :: p_cont s2))
                     (filter (fun x => negb (N.eqb x t)) (p_ro s2)), true).
 
-Definition exec_create (s : pst) (t : N) (b : content) (f : option nat) : pst * bool :=
+Definition exec_create (s : pst) (t : N) (b : payload) (f : option nat) : pst * bool :=
   if exists_b (p_fs s) (data t) then (s, false)
   else if fails f 0 || exists_b (p_fs s) (lockp t) || rlock_exists (p_fs s) t then (s, false)
   else
@@ -152,23 +156,22 @@ Definition sort_by (ord l : list N) : list N :=
 Definition created_tbls (c : list handler) : list N := map h_tbl (filter h_create c).
 Definition updated_tbls (c : list handler) : list N := map h_tbl (filter (fun h => negb (h_create h) && h_dirty h) c).
 Definition idle_tbls (c : list handler) : list N := map h_tbl (filter (fun h => negb (h_create h) && negb (h_dirty h)) c).
-Definition body_of (c : list handler) (t : N) : content :=
-  match find (fun h => N.eqb (h_tbl h) t) c with Some h => h_body h | None => [] end.
-Definition changes (c : list handler) (l : list N) : list tchange := map (fun t => mkT t (body_of c t)) l.
+Definition body_of (c : list handler) (t : N) : payload :=
+  match find (fun h => N.eqb (h_tbl h) t) c with Some h => h_body h | None => ([], []) end.
+Definition changes (c : list handler) (l : list N) : list tchange := map (fun t => mkT t (fst (body_of c t)) (snd (body_of c t))) l.
 
 Definition exec_commit (g : cfg) (s : pst) (ordc ordu ordi : list N) (f : option nat) : pst * bool :=
   let c := p_cont s in
   let cr := changes c (sort_by ordc (created_tbls c)) in
   let up := changes c (sort_by ordu (updated_tbls c)) in
   let idle := sort_by ordi (idle_tbls c) in
-  let lb := c_linebreak g in
-  let blocks := map (write_created lb) cr ++ map (write_updated lb) up in
+  let blocks := map write_created cr ++ map write_updated up in
   let failed := match f with Some k => Nat.ltb k (length (concat blocks)) | None => false end in
   if failed then (emit s (firstn (match f with Some k => k | None => O end) (concat blocks)), false)
   else
-    let s1 := emit s (commit_ops (c_rename_over g) lb cr up idle) in
+    let s1 := emit s (commit_ops (c_rename_over g) cr up idle) in
     (mkP (p_fs s1) (p_tr s1) [] []
-         (map (fun u => (tid u, new_content lb u)) (cr ++ up) ++ p_done s1), true).
+         (map (fun u => (tid u, new_content u)) (cr ++ up) ++ p_done s1), true).
 
 (* close the handlers of the tables named in ord, in that order, then whatever is left
    (CachedViews.Clean in sync.Map order, then FileContainer.CloseAll in map order) *)
